@@ -187,6 +187,9 @@ def callLater (s : Stack) (d : Nat) (cb : Cb) : Stack × Nat :=
   ({ s with loop := r.1 }, r.2)
 /-- which kind of callback a timer handle carries -/
 def isSvcExpiry : Cb → Bool | .expiredSvc _ _ => true | _ => false
+/-- the TTL handle of ONE stored service: asyncio cancels by handle identity, and the handle an entry of
+`found_services` holds was created for exactly this (address, service) -/
+def isSvcExpiryFor (a : Addr) (k : SvcKey) : Cb → Bool | .expiredSvc a' k' => a' == a && k' == k | _ => false
 def isSubExpiry : Cb → Bool | .expiredSub _ _ _ => true | _ => false
 def isSleep : Cb → Bool | .sleepDone _ => true | _ => false
 
@@ -565,13 +568,13 @@ def foundStop (s : Stack) (a : Addr) (k : SvcKey) : Stack :=
   | none => { s with found }
   | some old =>
     let s := { s with found := found.set a (TStore.eraseKey (· == ·) (found.get a) k) }
-    (s.cancelTimer isSvcExpiry old.timer).notifyService false k a
+    (s.cancelTimer (isSvcExpiryFor a k) old.timer).notifyService false k a
 
 /-- `TimedStore.refresh` on found_services -/
 def foundRefresh (s : Stack) (ttl : Nat) (a : Addr) (k : SvcKey) : Stack :=
   let found := s.found.touch a
   let p : Stack × List (TSEntry SvcKey) := match TStore.findKey (· == ·) (found.get a) k with
-    | some old => (({ s with found }).cancelTimer isSvcExpiry old.timer, TStore.eraseKey (· == ·) (found.get a) k)
+    | some old => (({ s with found }).cancelTimer (isSvcExpiryFor a k) old.timer, TStore.eraseKey (· == ·) (found.get a) k)
     | none => (({ s with found }).notifyService true k a, found.get a)
   let r := p.1.armTtl ttl (.expiredSvc a k)
   -- the store is re-read: a listener callback may have touched it (AutoSubscribe does not)
@@ -589,7 +592,7 @@ def foundStopAllFor (s : Stack) (a : Addr) : Stack :=
   let found := s.found.touch a
   let es := found.get a
   let s := { s with found := found.set a [] }
-  es.foldl (fun s e => (s.cancelTimer isSvcExpiry e.timer).notifyService false e.key a) s
+  es.foldl (fun s e => (s.cancelTimer (isSvcExpiryFor a e.key) e.timer).notifyService false e.key a) s
 
 def foundStopAll (s : Stack) : Stack :=
   let s := s.found.foldl (fun s p => s.foundStopAllFor p.1) s
